@@ -157,7 +157,8 @@ func newHandler(w *world) http.Handler {
 			return dk, nil
 		},
 		GetKEKByLabelFunc: func(label string) ([]byte, error) {
-			return append([]byte(nil), keks[label]...), nil
+			// the configuration hands out its stored KEK, as a map-backed configuration (and the repository's own test) does
+			return keks[label], nil
 		},
 		GetASKEKLabelByDevEUIFunc: func(e lorawan.EUI64) (string, error) {
 			if d, ok := devs[e]; ok {
@@ -596,6 +597,10 @@ func checkOne(c oneCase) evid.Outcome {
 	class, nt := flowClass(&c.world, &c.Req)
 	if v.viol != "" {
 		return evid.Outcome{Violation: v.viol, Known: v.known, Class: class + "/" + v.result + "/violation" + v.known}
+	}
+	// requests do not influence one another: the same request served again by the same handler gets the same answer
+	if status2, ans2 := serve(h, bodyOf(d, &c.Req)); status2 != status || !bytes.Equal(ans2, ans) {
+		return evid.Fail("the same %s request served a second time by the same handler is answered differently (an earlier request influenced a later one):\n first:  %d %s\n second: %d %s", c.Req.Flow, status, ans, status2, ans2)
 	}
 	return evid.Outcome{NonTrivial: nt, Class: class + "/" + v.result}
 }
